@@ -184,6 +184,13 @@ theorem header_accepts_only_wellformed (bs : Bytes) (h : Hdr.Hdr) (hp : Hdr.pars
 theorem header_length (h : Hdr.Hdr) (hw : Hdr.WF h) (hs : h.headerSize = Hdr.minSize h.version) :
     (Hdr.write h).length = h.headerSize := Hdr.write_length h hw hs
 
+/-- different well-formed headers are never written as the same bytes -/
+theorem header_write_injective (h1 h2 : Hdr.Hdr) (w1 : Hdr.WF h1) (w2 : Hdr.WF h2) (e : Hdr.write h1 = Hdr.write h2) : h1 = h2 := by
+  have p1 := Hdr.parse_write h1 w1 []
+  have p2 := Hdr.parse_write h2 w2 []
+  rw [e, p2] at p1
+  simpa using p1.symm
+
 /-- the generic fact behind every fixed-layout record of the formats: fields written one after the other are read back
     one after the other, for every layout (list of widths) and every list of values that fit -/
 theorem record_roundtrip (fs : List (Nat × Nat)) (rest : Bytes) (h : Rec.Fits fs) :
